@@ -16,7 +16,8 @@ KEYS = {"NOTONCE": "a suspended task did not continue exactly once", "TWICE": "a
 
 def pdesc(c):
     return "seed %d, task_arena(%d), %d suspending tasks, resume from %s%s" % (c[0], c[1], c[2], ["callback/foreign thread/task (mixed)", "the suspend callback", "a foreign thread", "another task", "a foreign thread 1-40 ms later (the suspending thread has gone to sleep)", "a foreign thread while another task of the arena waits for the suspended task's group",
-                                                                                   "a foreign thread while another task waits for the suspended task's group inside this_task_arena::isolate"][c[3]], ", nested suspensions" if c[4] else "")
+                                                                                   "a foreign thread while another task waits for the suspended task's group inside this_task_arena::isolate",
+                                                                                   "the main thread; the suspensions are at the OUTERMOST level of external threads that keep busy with a spawned task, 1-2 more external threads block in task_group::wait"][c[3]], ", nested suspensions" if c[4] else "")
 
 
 def oracle(c, toks):
@@ -111,6 +112,11 @@ def run(ctx):
                      "task_group, plainly or inside this_task_arena::isolate — the waiting thread is the only one that can run the resume task")
     oracle_tie(ctx, "suspend-waiter", exe, [], wcases, oracle, describe=pdesc, bucket=lambda c: "suspend-waiter P=%d mode=%d" % (c[1], c[3]), timeout=900)
 
+
+    ocases = [[ctx.seed * 1000 + 800000 + i, K, n, 7, ex] for i, (K, n, ex) in enumerate([(1, 3, 0), (2, 2, 0), (1, 2, 1), (3, 2, 0), (2, 2, 1)] * ctx.scale(1, 6))]
+    ctx.rules.append("suspend-outermost: 1-3 external threads suspend at the outermost level inside arena(K+W[+2], K+W) (no workers / two worker slots) and keep busy with a spawned task; 1-2 external threads block in "
+                     "task_group::wait; the main thread resumes the points in seeded order while the owners are busy: every point continues exactly once on its own thread within 6 s (the owner must be recalled)")
+    oracle_tie(ctx, "suspend-outermost", exe, [], ocases, oracle, describe=pdesc, bucket=lambda c: "suspend-outermost K=%d extra=%d" % (c[1], c[4]), timeout=900)
 
     rng2 = ctx.rng
     tcases = [[ctx.seed * 1000 + 900000 + i, rng2.choice([1, 2, 3, 4, 8]), rng2.choice([1, 2, 4, 8, 20]), rng2.choice([0, 0, 1, 2, 3]), rng2.choice([0, 60, 200])] for i in range(ctx.scale(60, 1500))]
